@@ -102,7 +102,9 @@ where
     }
 
     fn start_send(mut self: Pin<&mut Self>, frame: Frame) -> Result<(), Self::Error> {
-        let payload = frame.unwrap_message();
+        let Frame::Message(payload) = frame else {
+            return Err(anyhow!("Expected a message frame"));
+        };
         if payload.headers.is_none() {
             return Err(anyhow!("Expected headers for message"));
         }
